@@ -77,12 +77,24 @@ def track (best x : Sol α) : Sol α := if x.value < best.value then x else best
 
 def evalAt (f : Vec α → α) (p : Vec α) : Sol α := ⟨p, f p⟩
 
-/-- `SimplexDownhill::init`: the vertices `x0 + e_j - 0.5·(1 - e_j)`, `m_best.value = 1e100` first -/
-def simplexInit (f : Vec α → α) (x0 : Vec α) : Simplex α :=
+/-- the vertices `x0 + e_j - 0.5·(1 - e_j)` of the initial simplex, evaluated -/
+def simplexVerts (f : Vec α → α) (x0 : Vec α) : List (Sol α) :=
   let dim := x0.length
-  let verts := (List.range (dim + 1)).map fun j =>
+  (List.range (dim + 1)).map fun j =>
     evalAt f (x0.zipIdx.map fun (xi : α × Nat) => xi.1 + (if xi.2 = j then Scalar.one else -Scalar.half))
-  { simplex := verts, best := verts.foldl track ⟨x0, Scalar.ofRat (10 ^ 100)⟩ }
+
+/-- `SimplexDownhill::init` as REPAIRED (finding F16, `findings_proposed/C11-F16-simplex-init-best.patch`): the best-so-far
+starts as the first vertex.  Agrees with the pinned C++ whenever some vertex value is below `1e100`. -/
+def simplexInit (f : Vec α → α) (x0 : Vec α) : Simplex α :=
+  let verts := simplexVerts f x0
+  { simplex := verts, best := match verts with | [] => evalAt f x0 | v :: vs => vs.foldl track v }
+
+/-- `SimplexDownhill::init` of the pinned tree: `m_best.value = 1e100` first, so `m_best` is only assigned when a vertex
+value is below that magic number (the point is then whatever it was before: empty for a fresh object, stale for a used
+one -- modelled as `p0`) -/
+def simplexInitMagic (f : Vec α → α) (x0 p0 : Vec α) : Simplex α :=
+  let verts := simplexVerts f x0
+  { simplex := verts, best := verts.foldl track ⟨p0, Scalar.ofRat (10 ^ 100)⟩ }
 
 def lincomb (a : α) (x : Vec α) (b : α) (y : Vec α) : Vec α := List.zipWith (fun xi yi => a * xi + b * yi) x y
 
